@@ -287,7 +287,7 @@ def run(ctx):
         for z in zones:
             mixes = mixes_fixed + [{k: rng.choice(KINDS) for k in t} for _ in range(ctx.n(1, 3))]
             for mi, mix in enumerate(mixes):
-                case = {"kind": "run"}
+                case = {"kind": "run", "allow_dependent_source": True}
                 for k, i in t.items():
                     case[k] = None if i is None else rep_kind(mix[k], i, z)
                 work[z].append(({"kind": "run", "tuple": ti, "mix": mix, "mi": mi}, case))
